@@ -8,6 +8,7 @@ request  {"op":"ds9.interp","toks":[ "nl" | ";" | "(" | ")" | "," | "+" | "-" | 
                                      | {"p": ["<key as written>","<delim>","<value>"]}
                                      | {"c": "<comment text>"} ]}
 reply    {"regions":[{kind,frame,pts,sizes,angle,incl,props,src}]}   (src = statement index)
+optional "text": the file as characters; the reply then carries "lex_ok" = (Spec.Ds9.lex text == toks)
 -/
 import Driver.Proto
 import RegionsVerif.Spec.Ds9
@@ -113,8 +114,19 @@ def c10Ops : List (String × Handler) := [
     let tagged := runIdx init 0 (stmtsOf toks)
     -- the tagged fold must be the interpreter the theorems are about
     if tagged.map (·.2) != interp toks then .error "runIdx differs from interp" else
-    pure (Json.mkObj [("regions", .arr (tagged.map fun p => regionJson p.1 p.2).toArray),
-                      ("nstmts", ofInt (stmtsOf toks).length)]))
+    -- cross-check of the tokenisation: the Lean lexer on the very text the real parser gets
+    let lexInfo : List (String × Json) :=
+      match j.getObjVal? "text" with
+      | .ok (.str text) =>
+        let lt := lex text
+        if lt == toks then [("lex_ok", .bool true)]
+        else
+          let i := ((lt.zip toks).takeWhile fun p => p.1 == p.2).length
+          [("lex_ok", .bool false),
+           ("lex_diff", .str s!"token {i}: lexer {repr (lt.drop i |>.take 2)} harness {repr (toks.drop i |>.take 2)} (lengths {lt.length}/{toks.length})")]
+      | _ => []
+    pure (Json.mkObj ([("regions", .arr (tagged.map fun p => regionJson p.1 p.2).toArray),
+                       ("nstmts", ofInt (stmtsOf toks).length)] ++ lexInfo)))
 ]
 
 end Driver
